@@ -270,10 +270,21 @@ def run_call(pool, call, res):
                 gen = getattr(pool, kind)(func, data, **params)
                 got = partial
                 if consume is None:
+                    inside = call.get('apply_inside')      # apply tasks submitted while this lazy call is in flight
                     for x in gen:
                         got.append(x)
                         if call.get('consumer_sleep'):
                             time.sleep(call['consumer_sleep'])
+                        if inside and len(got) == inside['after']:
+                            asy = [pool.apply_async(userfuncs.task, tuple(j['args'])) for j in inside['jobs']]
+                            vals = []
+                            for a in asy:
+                                try:
+                                    v = a.get(timeout=inside.get('get_timeout', 20))
+                                    vals.append(['ok', v if (isinstance(v, list) and v and v[0] in ('R', 'Q')) else userfuncs.canon(v)])
+                                except BaseException as e:       # noqa
+                                    vals.append(['exc', type(e).__name__, repr(e.args)[:300]])
+                            out['apply_inside'] = vals
                 else:
                     for _ in range(consume):
                         got.append(next(gen))
@@ -303,7 +314,7 @@ def run_call(pool, call, res):
                     log.append(['ecb', _j['id'], type(e).__name__, repr(e.args)])
                     if _j.get('ecb_sleep'):
                         time.sleep(_j['ecb_sleep'])
-                kw = {}
+                kw = {k: params[k] for k in ('worker_init', 'worker_exit', 'worker_init_timeout', 'worker_exit_timeout') if k in params}
                 if j.get('timeout') is not None:
                     kw['task_timeout'] = j['timeout']
                 has_cb, has_ecb = j.get('cbs', [True, True])
